@@ -15,10 +15,13 @@ package bpf
 // decode it as LoadExtension); its value is environment-defined, modelled as an arbitrary u32. The VM treats it as an
 // out-of-bounds packet load and returns 0. NewVM accepts such programs (it only rejects typed LoadExtension).
 //
-// Sensitivity (sh mut.sh ... C49, all caught):
-//   bpf/vm_instructions.go 'ok = regA >= value' -> 'ok = regA > value'
-//   bpf/vm_instructions.go 'return offset+size <= inLen' -> 'return offset+size < inLen'
-//   bpf/vm.go              'if check <= int(ins.SkipFalse) {' (JumpIfX) -> 'if check < int(ins.SkipFalse) {'  (Run panics: index out of range)
+// Sensitivity (sh mut.sh ... C49, all caught, replayed natively):
+//   bpf/vm_instructions.go 'ok = regA >= value' -> 'ok = regA > value'                         VerifC49_jump (verdict)
+//   bpf/vm_instructions.go 'return offset+size <= inLen' -> 'return offset+size < inLen'       VerifC49_load (verdict)
+//   bpf/vm_instructions.go 'return regA >> value' -> 'return regA >> (value & 31)'             VerifC49_alu (verdict)
+//   bpf/vm.go 'if check <= int(ins.SkipFalse) {' (JumpIf) -> 'if check < int(ins.SkipFalse) {'  VerifC49_jump (NewVM accepts a
+//             jump to one past the end: Run falls off the program, reference reports "no ret reached")
+// Native reproduction of the known finding: repro/C49 (sh repro/run.sh C49 bpf).
 
 func init() {
 	vfRegister("VerifC49_run", VerifC49_run)
